@@ -313,8 +313,11 @@ class GeneralDataType(AbstractDataType):
                 not isinstance(ambiguities[ambiguity], list)
                 or len(ambiguities[ambiguity]) == 1
             ):
-                # this is an alias for example {'U': 'T}
-                self._encoding[ambiguity] = self.codes[ambiguities[ambiguity]]
+                # this is an alias for example {'U': 'T} or {'U': ['T']}
+                state = ambiguities[ambiguity]
+                if isinstance(state, list):
+                    state = state[0]
+                self._encoding[ambiguity] = self.codes[state]
 
     def encoding(self, string: str) -> int:
         return self._encoding.get(string, self.state_count)
